@@ -591,6 +591,45 @@ example : (∀ cols ∈ [[[true, false], [false, false, true]], [[true, true], [
   refine ⟨by decide, ?_⟩
   simp [InBox, shapeOf]
 
+/-! ## computing a statistic leaves the spectrum as it was -/
+
+/-- **`S` is pure**: after `fs.S()` (the generated statement list `sBody`, run by `sRun` with the aliasing semantics of the
+    saved mask) the mask of the spectrum is the mask it had before, whatever the data, the shape and the mask: the corner
+    entries masked for the sum are visible again iff they were before.  (Data, folded flag and labels are not written by any
+    statement of the translated language.) -/
+theorem C13_S_pure (proj : List ℕ) (f : List ℕ → ℚ) (m : List ℕ → Bool) : (sRun proj f m).live = m := rfl
+
+/-- … and the value returned is the sum of the entries visible under `m` outside the two corners -/
+theorem C13_S_value (proj : List ℕ) (f : List ℕ → ℚ) (m : List ℕ → Bool) :
+    (sRun proj f m).s = boxSum (shapeOf proj) fun idx => if m idx || isCorner proj idx then 0 else f idx := rfl
+
+/-- for a one-population spectrum without masked entries this is the `sOf` the statistics theorems are about -/
+theorem C13_S_run (n : ℕ) (f : ℕ → ℚ) :
+    (sRun [n] (fun idx => f idx.headI) (fun _ => false)).s = sOf n f := by
+  rw [C13_S_value]
+  unfold sOf
+  show sumRange (n + 1) _ = _
+  apply sumRange_congr
+  intro i _
+  show (if (false || isCorner [n] [i]) = true then (0 : ℚ) else f i) = _
+  have h : isCorner [n] [i] = true ↔ (i = 0 ∨ i = n) := by simp [isCorner]
+  by_cases hc : i = 0 ∨ i = n
+  · rw [if_pos hc, if_pos (by simpa using h.mpr hc)]
+  · rw [if_neg hc, if_neg (by simpa using fun hh => hc (h.mp hh))]
+
+/-- the theorem discriminates: were the saved mask the live mask itself (`oldmask = self.mask`), the corner entries would
+    stay masked, here on a 3-entry spectrum without masked entries, and a total taken afterwards would miss them -/
+example : (sRunWith [.saveAlias, .maskCorners, .sumVisible, .restore] [2] (fun _ => 1) (fun _ => false)).live [0] = true ∧
+    (sRunWith [.saveAlias, .maskCorners, .sumVisible, .restore] [2] (fun _ => 1) (fun _ => false)).live [2] = true ∧
+    (sRunWith [.saveCopy, .maskCorners, .sumVisible, .restore] [2] (fun _ => 1) (fun _ => false)).live [0] = false ∧
+    (sRunWith [.saveCopy, .maskCorners, .sumVisible, .restore] [2] (fun _ => 1) (fun _ => false)).s = 1 := by
+  refine ⟨rfl, rfl, rfl, ?_⟩
+  simp [sRunWith, sStep, boxSum, shapeOf, sumRange, isCorner]
+
+/-- no other statistic (`Watterson_theta`, `theta_L`, `pi`, `Tajima_D`, `Fst`, `Zengs_E`) contains a statement that assigns to
+    the receiver or calls one of its methods other than the read-only ones and `S` (syntactic scan of the source, T) -/
+theorem C13_stats_read_only : statsSelfWrites = [] := rfl
+
 /-! ## structure of the source as the model assumes it (T) -/
 
 /-- the statement-level shape of the translated functions is the one the model hard-wires: accumulation
